@@ -45,22 +45,30 @@ def main():
     run.notes["half_open_cases_peak_not_global"] = sum(1 for c in halfopen if c["a"][c["p0"] - 1] != max(c["a"]))
     if run.notes["half_open_cases_peak_not_global"] == 0:
         raise Exception("non-vacuity failed: no half-open case selects a peak other than the global maximum")
-    cases = coarse + halfopen + cases
+    resf = tlc("SesameMC", "Sesame_fine", timeout=900, workers=8)
+    require_tlc_ok(resf, "Sesame_fine")
+    run.add_tlc(resf, "Sesame_fine: grid with samples at 0.94 / 0.951 / 1.051 / 1.06 f0 (criterion iv: 5 % band measured from f0)")
+    fine = [c for c in resf.cases if isinstance(c, dict) and "p0" in c]
+    for c in fine:
+        c["fine"] = True
+    cases = coarse + halfopen + fine + cases
     rng = np.random.RandomState(run.seed)
     if not run.quick and len(cases) > 150000:
         cases = [cases[i] for i in sorted(rng.choice(len(cases), 150000, replace=False).tolist())]
     names = ["reliability i", "reliability ii", "reliability iii", "clarity i", "clarity ii", "clarity iii", "clarity iv", "clarity v", "clarity vi"]
     nverb = 0
     FREQ5 = np.array([2, 10, 50, 250, 1250], dtype=float) / 20.0
+    FREQ9 = np.array([700, 1500, 2820, 2853, 3000, 3153, 3180, 6000, 13000], dtype=float) / 1000.0
     for n_, c in enumerate(cases):
-        FREQ = FREQ5 if c.get("coarse") else FREQ14
+        FREQ = FREQ5 if c.get("coarse") else (FREQ9 if c.get("fine") else FREQ14)
         a = np.array(c["a"], dtype=float)
         p0 = c["p0"]
         sp, se = c["sp"][0] / c["sp"][1], c["se"][0] / c["se"][1]
         sig = np.full(len(a), se)
         sig[p0 - 1] = sp
-        if p0 < len(a):
-            sig[p0] = sp
+        nb = p0 - 1 + c.get("side", 1)
+        if 0 <= nb < len(a):
+            sig[nb] = sp
         std = np.log(sig)
         lo, hi = c["rng"]
         # the specification's range ends are half-step grid positions; hand the functions the grid frequency itself
